@@ -15,11 +15,11 @@ EXTENDS Integers, Sequences, FiniteSets, TLC, Json, SequencesExt
 CONSTANTS MaxItems, OutFile
 
 Names == {"a", "b", "c", "d"}
-\* x-order classes: absent; the numbers 1 and 2; the strings "1" and "2"; 1.5 (truncated to 1);
+\* x-order classes: absent; the numbers -1, 0, 1 and 2 (-1 is what GetInt reports for "absent"); the strings "1" and "2"; 1.5 (truncated to 1);
 \* a non-numeric string; a boolean
-XOrders == {"absent", "n1", "n2", "s1", "s2", "f15", "zz", "true"}
-Key(xo) == CASE xo \in {"n1", "s1", "f15"} -> 1 [] xo \in {"n2", "s2"} -> 2 [] OTHER -> 0 - 1
-HasKey(xo) == xo \in {"n1", "n2", "s1", "s2", "f15"}
+XOrders == {"absent", "m1", "n0", "n1", "n2", "s1", "s2", "f15", "zz", "true"}
+Key(xo) == CASE xo \in {"n1", "s1", "f15"} -> 1 [] xo \in {"n2", "s2"} -> 2 [] xo = "n0" -> 0 [] OTHER -> 0 - 1
+HasKey(xo) == xo \in {"m1", "n0", "n1", "n2", "s1", "s2", "f15"}
 
 \* names are compared as strings; the four names are in alphabetical order
 Rank(n) == CASE n = "a" -> 1 [] n = "b" -> 2 [] n = "c" -> 3 [] OTHER -> 4
@@ -53,7 +53,7 @@ Sorted(S) == IF S = {} THEN <<>>
 HasLeast == \A S \in ItemSets : \E x \in S : \A y \in S \ {x} : Less(x, y)
 
 \* integer-valued x-orders must come out ordered by (x-order, name)
-IntValued(xo) == xo \in {"n1", "n2"}
+IntValued(xo) == xo \in {"m1", "n0", "n1", "n2"}
 ASSUME /\ Irreflexive /\ Total /\ Transitive
        /\ HasLeast
        /\ PrintT(<<"NSETS", Cardinality(ItemSets)>>)
